@@ -187,6 +187,25 @@ pub fn case_input(seed: u64, idx: usize, thorough: bool) -> (Vec<u8>, &'static s
         return (seeds[idx].clone(), "seed_whole");
     }
     let idx = idx - seeds.len();
+    // then every proper prefix of every MessagePack seed (a value cut after each of its bytes)
+    static MP_PREFIXES: std::sync::OnceLock<Vec<Vec<u8>>> = std::sync::OnceLock::new();
+    let prefixes = MP_PREFIXES.get_or_init(|| {
+        let mut v = vec![];
+        for it in corpus::seeds() {
+            if it.fmt == Some(Fmt::Msgpack) {
+                for cut in 1..it.bytes.len() {
+                    v.push(it.bytes[..cut].to_vec());
+                }
+            }
+        }
+        v.sort();
+        v.dedup();
+        v
+    });
+    if idx < prefixes.len() {
+        return (prefixes[idx].clone(), "msgpack_seed_prefix");
+    }
+    let idx = idx - prefixes.len();
     if idx % 4 == 3 {
         adversarial(seed, idx / 4, thorough)
     } else {
@@ -376,7 +395,7 @@ fn case_json(seed: u64, idx: usize, thorough: bool) -> Value {
 }
 
 pub fn run(ctx: &Ctx) -> i32 {
-    let n = ctx.size(4000, 150000);
+    let n = ctx.size(6000, 150000);
     let thorough = ctx.thorough();
     let seed = ctx.seed;
     let workers = crate::par::threads();
